@@ -26,9 +26,23 @@ MAX_REPORT = 40
 #   kinds: container kinds of the four arguments;  ren: renaming of the states
 #   Vs: list of subsets for get_substructure;  Q: states to query with labels()/next()
 # ----------------------------------------------------------------------------------------
+class Site(object):
+    """a state that is a plain object: default identity __eq__/__hash__ (a copy of it is a DIFFERENT state)"""
+    def __init__(self, i):
+        self.i = i
+
+    def __repr__(self):
+        return 'Site(%d)' % self.i
+
+
+_SITES = [Site(i) for i in range(128)]
+
+
 def renaming(ren):
     """bijection int -> python state value, and its inverse"""
-    if ren == 0:
+    if ren == 4:
+        f = lambda i: _SITES[i]
+    elif ren == 0:
         f = lambda i: i
     elif ren == 1:
         f = lambda i: 's%d' % i
@@ -542,7 +556,7 @@ def with_renamings(cases, rng, every):
         out.append(c)
         if i % every == 0:
             d = json.loads(json.dumps(c))
-            d['ren'] = 1 + rng.randrange(3)
+            d['ren'] = 1 + rng.randrange(4)       # strings / tuples / mixed / identity-hashed objects
             out.append(d)
     return out
 
